@@ -36,6 +36,7 @@ INFO = {
                     'clock and nonce are arbitrary values of their range'],
 }
 MANDATORY = {'data_fields': ['data-rt-content', 'data-ref-wellformed'],
+             'reuse': ['caller-name-unchanged', 'end'],
              'data_elastic': ['data-rt-content', 'data-ref-wellformed', 'end'],
              'interest_elastic': ['int-rt-app', 'int-ref-wellformed', 'end'],
              'interest_fields': ['int-rt-name', 'int-ref-wellformed']}
@@ -91,7 +92,7 @@ def ref_check_data(eng, w, name, meta_in, content, signer_kind):
     return rv
 
 
-def check_data(eng, name, meta_in, content, signer_kind, signer, form='list'):
+def check_data(eng, name, meta_in, content, signer_kind, signer, form='list', name_obj=None):
     """encode, check the wire with the reference reader, decode, compare. meta_in = None | dict"""
     enc = _lib()
     if meta_in is None:
@@ -100,7 +101,7 @@ def check_data(eng, name, meta_in, content, signer_kind, signer, form='list'):
         meta = enc.MetaInfo(content_type=meta_in['ct'], freshness_period=meta_in['fp'],
                             final_block_id=meta_in['fbi'])
     try:
-        wire = enc.make_data(env.name_in_form(name, form), meta, content, signer)
+        wire = enc.make_data(env.name_in_form(name, form) if name_obj is None else name_obj, meta, content, signer)
     except Exception as e:
         eng.fail('data-encode-raises', exc_sig(e), repr(e)[:200])
         return None
@@ -180,7 +181,7 @@ def h_data_payload(eng, case):
 
 
 # ---------------------------------------------------------------------------------------------
-def check_interest(eng, name, digest_pos, P, app_param, signer_kind, signer, form='list'):
+def check_interest(eng, name, digest_pos, P, app_param, signer_kind, signer, form='list', name_obj=None):
     """P: dict(cbp, mbf, nonce, lifetime, hop, hints)"""
     enc = _lib()
     param = enc.InterestParam(can_be_prefix=P['cbp'], must_be_fresh=P['mbf'], nonce=P['nonce'],
@@ -191,7 +192,8 @@ def check_interest(eng, name, digest_pos, P, app_param, signer_kind, signer, for
     if digest_pos is not None:
         in_name.insert(digest_pos, env.concrete_component(2, bytes(32)))
     try:
-        wire, final_name = enc.make_interest(env.name_in_form(in_name, form), param, app_param, signer,
+        wire, final_name = enc.make_interest(env.name_in_form(in_name, form) if name_obj is None else name_obj,
+                                             param, app_param, signer,
                                              need_final_name=True)
     except Exception as e:
         eng.fail('int-encode-raises', exc_sig(e), repr(e)[:200])
@@ -532,7 +534,34 @@ def h_interest_elastic(eng, case):
     eng.reach('end')
 
 
-HARNESSES = {'data_elastic': h_data_elastic, 'interest_elastic': h_interest_elastic, 'data_fields': h_data_fields, 'data_names': h_data_names, 'data_payload': h_data_payload,
+def h_reuse(eng, case):
+    """the caller keeps ONE name object (a list of encoded components) and builds several packets from it: every
+    packet must round-trip to the caller's name, and the caller's object must not have been changed"""
+    env.symbolic_env(eng)
+    name = env.name_from_shape(eng, [tuple(x) for x in case['shape']])
+    L = list(name)
+    for i, step in enumerate(case['seq']):
+        P = {'cbp': False, 'mbf': False, 'nonce': eng.int('nonce', 0, 2 ** 32 - 1), 'lifetime': None, 'hop': None,
+             'hints': []}
+        if step == 'data':
+            check_data(eng, name, None, eng.bytes('c', 1), 'none', None, name_obj=L)
+        elif step == 'data_sig':
+            check_data(eng, name, None, eng.bytes('c', 1), 'digest', env.make_signer(eng, 'digest'), name_obj=L)
+        elif step == 'int_plain':
+            check_interest(eng, name, None, P, None, 'none', None, name_obj=L)
+        elif step == 'int_app':
+            check_interest(eng, name, None, P, eng.bytes('app', 1), 'none', None, name_obj=L)
+        elif step == 'int_sig':
+            check_interest(eng, name, None, P, None, 'digest', env.make_signer(eng, 'digest', for_interest=True),
+                           name_obj=L)
+        else:
+            raise AssertionError(step)
+        eng.check(And(len(L) == len(name), env.names_equal(L, name) if len(L) == len(name) else False),
+                  'caller-name-unchanged', {'step': i, 'len': len(L)})
+    eng.reach('end')
+
+
+HARNESSES = {'reuse': h_reuse, 'data_elastic': h_data_elastic, 'interest_elastic': h_interest_elastic, 'data_fields': h_data_fields, 'data_names': h_data_names, 'data_payload': h_data_payload,
              'interest_fields': h_interest_fields, 'interest_names': h_interest_names,
              'interest_payload': h_interest_payload}
 
@@ -565,6 +594,11 @@ def cases(tier, seed):
                                        'fixed_env': True}))
                 else:
                     cs.append((h, {'signer': sk, 'max': 2 ** 20}))
+    # one caller-owned name object used for several packets in a row
+    for sh in ([[1, 1]], [[1, 0], [3, 1]], []):
+        for seq in (['int_app', 'data'], ['int_app', 'int_plain'], ['int_sig', 'data_sig'], ['data', 'int_app', 'int_app'],
+                    ['int_sig', 'int_plain', 'data']):
+            cs.append(('reuse', {'shape': sh, 'seq': seq}))
     contents = [None, 0, 1, 2, 4] if quick else [None, 0, 1, 2, 3, 4, 6, 8]
     for sk in env.SIGNER_KINDS:
         for k in contents:
